@@ -272,6 +272,21 @@ func loopBoundRule(P *Program, r *Result, rule string, fn *ssa.Function, isElemC
 		}
 		n++
 		okCnt := false
+		// counting down: left := size; left > 0; left-- runs size times as well
+		if k, isC := constInt(bo.Y); isC && k == 0 && bo.Op == token.GTR {
+			if ph, isPhi := stripWidening(bo.X).(*ssa.Phi); isPhi {
+				if init := countdownInit(ph); init != nil {
+					w, _ := intBits(ph.Type())
+					okDown := w >= 32 && isSize(stripWidening(init))
+					d := ""
+					if !okDown {
+						d = "the count-down does not start from the element count read from the container header, or is narrower than 32 bits"
+					}
+					r.add(rule, shortName(fn), "loop", "an element loop runs exactly as many times as the container header declares", P.pos(instrPos(iff)), okDown, d)
+					continue
+				}
+			}
+		}
 		if ph, isPhi := stripWidening(cnt).(*ssa.Phi); isPhi && isCounter(ph) {
 			w, _ := intBits(ph.Type())
 			okCnt = w >= 32
